@@ -78,3 +78,69 @@ class RouteHasDeadLinks:
     def ensures_true_iff_some_hop_uses_dead_hardware(g_hops, machine, result):
         return iff(result, exists_range(0, seq_len(g_hops), lambda i: any(
             l in select(g_hops, i)[2] and not working(machine, select(g_hops, i)[1][0], select(g_hops, i)[1][1], l) for l in range(6))))
+
+
+# ---- the repair search (a_star): one neighbour of the chip taken from the heap (fragment) -----------------------------------------
+from pyvc.values import ListV as _ListV, NONE as _NONE   # noqa: E402
+from pyvc.speclib import uf   # noqa: E402
+import z3 as _z3   # noqa: E402
+
+
+def _uf3(name, *terms):
+    return _z3.Function("uf_" + name, *([_z3.IntSort()] * (len(terms) + 1)))(*[t if _z3.is_expr(t) else _z3.IntVal(int(t)) for t in terms])
+
+
+def _visited_contains(E, obj, args, kwargs, st, node):
+    x, y = args[0]
+    return [(st, _uf3("seen", x, y) == 1, None)]
+
+
+def _visited_set(E, obj, args, kwargs, st, node):
+    s = st.copy()
+    s.trace = _ListV(s.trace.items + (("visited", args[0], args[1]),))
+    return [(s, _NONE, None)]
+
+
+def _heappush(E, args, kwargs, st, node):
+    s = st.copy()
+    s.trace = _ListV(s.trace.items + (("push", args[1]),))
+    return [(s, _NONE)]
+
+
+def _heuristic(E, obj, args, kwargs, st, node):
+    x, y = args[0]
+    return [(st, _uf3("h", x, y), None)]
+
+
+@contract("rig/place_and_route/route/ner.py::a_star@forbody:0")
+class AStarNeighbour:
+    """one direction around the chip `node` taken from the heap: the chip looked at is the one FROM which a packet sent over
+    that link arrives at `node` (modulo the machine's own width and height - each coordinate with its own dimension); it is
+    taken into the search exactly when that link of that chip is working and the chip was not seen before, and then it is
+    remembered with exactly (the link, node) - the hop the repaired tree will use - and queued with its own heuristic value"""
+    properties = ("C03", "C01")
+    params = dict(node=T2, neighbour_link=TInt(0, 5), machine=MACHINE, visited=TRec("Visited"), to_visit=TRec("Heap"), heuristic=TRec("Heuristic"))
+    fragment_result = ()
+    fragment_head = "for neighbour_link in Links:"
+    externals = {"Visited.__contains__": _visited_contains, "Visited.__setitem__": _visited_set, "heappush": _heappush, "Heuristic.__call__": _heuristic}
+    options = {"int_class": "rig/links.py::Links"}
+    assumptions = ["the visited map, the heap and the heuristic are opaque here (what is stored / pushed is recorded; `in visited` is a function of the chip)"]
+
+    def native(node):
+        raise __import__("pyvc.replay", fromlist=["OutsideHarness"]).OutsideHarness()
+
+    def requires(node, machine):
+        return 0 <= node[0] < machine.width and 0 <= node[1] < machine.height
+
+    def ensures_looks_at_the_chip_the_link_comes_from_and_takes_it_iff_usable_and_new(node, neighbour_link, machine, _trace):
+        return taken_iff(node, neighbour_link, machine, _trace)
+
+
+def taken_iff(node, l, machine, _trace):
+    # (nx, ny): the unique chip of the machine with (nx, ny) + vector(link) == node modulo (width, height)
+    nx = (node[0] - link_vec(l)[0]) % machine.width
+    ny = (node[1] - link_vec(l)[1]) % machine.height
+    take = working(machine, nx, ny, l) and not uf("seen", nx, ny) == 1
+    return (implies(not take, len(_trace) == 0)
+            and implies(take, len(_trace) == 2 and _trace[0] == ("visited", (nx, ny), (l, node))
+                        and _trace[1] == ("push", (uf("h", nx, ny), (nx, ny)))))
